@@ -38,14 +38,14 @@ def check_c11(v):
             if n and p != "C11":
                 r.other_props[p] = r.other_props.get(p, 0) + n
         mine = [b for b in bad if b["p"] == "C11"]
-        races = [m for m in re.finditer(r"WARNING: DATA RACE", cap[0] if cap else "")]
+        races = library_races(v, cap[0] if cap else "")
         if mine or races:
             # a second run must show it again before it counts
             cap2 = []
             g2 = v.gen_traces(r, racebin, os.path.join(r.dir, "tr2"), per_shard=1500, env=env, capture=cap2)
             bad2, nbad2 = v.validate_traces(r, g2["files"], "LibTrace.tla", "LibTrace.cfg")
             again = [b for b in bad2 if b["p"] == "C11"]
-            races2 = re.findall(r"WARNING: DATA RACE", cap2[0] if cap2 else "")
+            races2 = library_races(v, cap2[0] if cap2 else "")
             if (mine and again) or (races and races2):
                 reason = mine[0]["r"] if (mine and again) else "data race reported by the race detector in two runs"
                 d = os.path.join(v.ROOT, "replays", "C11")
@@ -53,12 +53,30 @@ def check_c11(v):
                 path = os.path.join(d, "free-running-%d.json" % r.seed)
                 with open(path, "w") as fh:
                     json.dump({"property": "C11", "mode": "free", "tier": r.tier, "seed": r.seed, "reason": reason,
-                               "race_report": (cap[0] if cap else "")[-4000:] if races else ""}, fh, indent=1)
+                               "race_report": races[0] if races else ""}, fh, indent=1)
                 r.violations.append({"reason": reason, "replay": path, "event": None})
             else:
                 raise v.Inconclusive("a rejection in the free-running tier did not reproduce")
         r.nontrivial = r.extra.get("schedules_replayed", 0) + r.classes.get("value", 0) + r.classes.get("accept", 0)
     return f
+
+
+def library_races(v, text):
+    """Race reports whose racing accesses are in the library under test (not in the harness)."""
+    hits = []
+    for block in (text or "").split("=================="):
+        if "WARNING: DATA RACE" not in block:
+            continue
+        lines = block.splitlines()
+        lib = False
+        for i, l in enumerate(lines):
+            if re.match(r"^(Read|Write|Previous read|Previous write|Atomic|Previous atomic)", l.strip()):
+                frame = " ".join(lines[i + 1:i + 3])
+                if v.REPO.rstrip("/") + "/" in frame or "github.com/ja7ad/otp" in frame:
+                    lib = True
+        if lib:
+            hits.append(block.strip()[:1500])
+    return hits
 
 
 def sim_schedules(v, r, n, seed):
